@@ -31,9 +31,11 @@ def fam_jac(seed, n):
     rnd = random.Random(seed)
     out = []
     funcs = ['tanh', 'sin', 'cos', 'exp', 'sigmoid', 'arctan', 'sinh', 'cosh', 'absv', 'tan']
-    for k in range(n):
+    picks = [(rnd.choice(funcs), rnd.choice(funcs)) for _ in range(n)]
+    # a piecewise constant function next to a differentiable one (its derivative vanishes; the entry keeps the rest)
+    picks += [('sign', 'tanh'), ('tanh', 'sign')]
+    for k, (f1, f2) in enumerate(picks):
         fp = FP()
-        f1, f2 = rnd.choice(funcs), rnd.choice(funcs)
         # operator with an algebraic intermediate variable and two state variables
         e_m = X.mul(V('s'), X.call(f1, X.sub(V('a'), V('th'))))
         e_a = X.add(X.sub(V('b'), X.mul(V('k'), X.pw(V('a'), 3))), X.mul(V('m'), V('b')))
@@ -109,8 +111,13 @@ def fam_jac_parallel_delays():
     nodes = {'p0': NodeSpec(['li'], {}), 'p1': NodeSpec(['o1'], {})}
     edges = [EdgeSpec('p0/li/x', 'p1/o1/u', fp(), delay=F(1, 2)), EdgeSpec('p0/li/x', 'p1/o1/u', fp(), delay=F(3, 4)),
              EdgeSpec('p1/o1/x', 'p0/li/u', fp())]
-    return [("FJ:parallel-delays", ModelSpec('m', {'li': li, 'o1': o1}, nodes, edges,
-                                             note="parallel delayed connections between two scalar nodes"))]
+    out = [("FJ:parallel-delays", ModelSpec('m', {'li': li, 'o1': o1}, nodes, edges,
+                                            note="parallel delayed connections between two scalar nodes"))]
+    # one delay written as the integer 1 on one edge and as the float 1.0 on the other: one history matrix
+    edges2 = [EdgeSpec('p0/li/x', 'p1/o1/u', fp(), delay=F(1)), EdgeSpec('p1/o1/x', 'p0/li/u', fp(), delay=F(1))]
+    out.append(("FJ:int-and-float-delay", ModelSpec('m', {'li': li, 'o1': o1}, dict(nodes), edges2,
+                                                    note="the same delay as int and as float")))
+    return out
 
 
 def jac_job(job):
@@ -127,8 +134,15 @@ def jac_job(job):
         skw['inputs'] = {inp: np.array([float(b) for b in base])}
     try:
         vec = bool(job.get('vectorize', False))       # (True only for models whose nodes all differ: every state stays scalar)
-        c_run = tv.compile_template(build_python(spec), vectorize=vec, step_size=float(DT), **skw)
-        c_jac = tv.compile_template(build_python(spec), vectorize=vec, step_size=float(DT), kind='jac',
+
+        def build():
+            ct_ = build_python(spec)
+            if 'int-and-float-delay' in job['key']:
+                e0 = spec.edges[0]
+                ct_.update_var(edge_vars=[(e0.src, e0.tgt, {'delay': int(e0.delay)})])     # 1 instead of 1.0
+            return ct_
+        c_run = tv.compile_template(build(), vectorize=vec, step_size=float(DT), **skw)
+        c_jac = tv.compile_template(build(), vectorize=vec, step_size=float(DT), kind='jac',
                                     sparse=job.get('sparse', False), fname='jf', **skw)
     except tv.CompileError as e:
         out['compile_error'] = str(e)
@@ -318,7 +332,8 @@ def _coinciding_delays(spec):
         for v, (k, val) in o.vars.items():
             if k == 'const' and v.startswith('tau'):
                 vals.append(F(val))
-    vals += [F(e.delay) for e in spec.edges if e.delay is not None]
+    # (edge delays are literals: two edges with the same numeric delay share ONE history matrix, whatever the Python type
+    # the number was written in; only delay PARAMETERS that happen to hold equal values cannot be told apart)
     return len(vals) != len(set(vals))
 
 
@@ -357,11 +372,11 @@ def run(tier='quick', seed=0, only=None, verbose=False):
     rep = Report('C12', tier, seed, 'translation_validation', functions_encoded=[
         'emitted text of get_run_func (symx forward-mode AD)', 'emitted text of get_jacobian_func (symx)',
         'ComputeGraph.get_jacobian_func / _get_symbolic_rhs / _resolve_derivatives / _expr_to_jac_str (concrete)'],
-        bounds=dict(states='<=5', delays='<=2 distinct', functions='tanh sin cos exp sigmoid arctan sinh cosh absv tan, '
+        bounds=dict(states='<=5', delays='<=2 distinct', functions='tanh sin cos exp sigmoid arctan sinh cosh absv tan sign, '
                     'cubic and rational terms, algebraic intermediates, edges', backends='default', sparse='on/off', solver='euler, heun, scipy, keyword omitted in both calls',
                     vectorize='False (scalar models, as the property states)'),
         stubs=['numpy library model; hist = uninterpreted functions; scipy.sparse.csr_matrix = tagging wrapper'],
-        assumptions=['reals for floats', 'abs: argument != 0 at the evaluation point', 'auto-07p DFDU/DFDP: see C18',
+        assumptions=['reals for floats', 'abs, sign: argument != 0 at the evaluation point', 'auto-07p DFDU/DFDP: see C18',
                      'counterexamples are replayed with central differences of the real vector field in float64'])
     progs = fam_jac(seed, 8 if tier == 'quick' else 80)
     dde = families.fam_dde(seed, n=8 if tier == 'quick' else 40)
@@ -376,7 +391,7 @@ def run(tier='quick', seed=0, only=None, verbose=False):
         jobs.append(dict(key=f"{k}|scipy", spec=s, solver='scipy'))
         jobs.append(dict(key=f"{k}|scipy|sparse", spec=s, solver='scipy', sparse=True))
     for k, s in fam_jac_parallel_delays():
-        for vec in (True, False):
+        for vec in ((True, False) if 'parallel' in k else (False,)):
             jobs.append(dict(key=f"{k}|scipy|vec={vec}", spec=s, solver='scipy', vectorize=vec))
     for pi_, (k, s) in enumerate(progs[:4 if tier == 'quick' else 40]):
         for solver in ('euler', 'heun', 'scipy'):
